@@ -896,6 +896,35 @@ func TestEngineCrypto(t *testing.T) {
 		}
 		p.Count("derivation:random")
 	}
+	// directed: mnemonics whose private key at a hardened level of the Ethereum path (m/44', m/44'/60', m/44'/60'/0')
+	// begins with a zero byte — the case in which a derivation that does not left-pad the parent key to 32 bytes
+	// (btcutil's DeriveNonStandard, old BIP-32 libraries) yields another child than every standard wallet
+	found := 0
+	for try := 0; try < 4000 && found < 3; try++ {
+		ent := randBytes(16)
+		mn, err := bip39.NewMnemonic(ent)
+		require.NoError(t, err)
+		seed2 := bip39.NewSeed(mn, "")
+		master, ch := sdkhd.ComputeMastersFromSeed(seed2)
+		lead := false
+		for _, pre := range []string{"m/44'", "m/44'/60'", "m/44'/60'/0'"} {
+			k, e := sdkhd.DerivePrivateKeyForPath(master, ch, pre)
+			if e == nil && k[0] == 0 {
+				lead = true
+			}
+		}
+		if !lead {
+			continue
+		}
+		found++
+		path := "m/44'/60'/0'/0/0"
+		got, err := evhd.EthSecp256k1.Derive()(mn, "", path)
+		want, err2 := sdkhd.DerivePrivateKeyForPath(master, ch, path)
+		if (err == nil) != (err2 == nil) || (err == nil && !bytes.Equal(got, want)) {
+			p.Oracle("C19-derivation", "mnemonic %q (an intermediate hardened key begins with a zero byte) path %s: evermint %x (%v), BIP-32 %x (%v)", mn, path, got, err, want, err2)
+		}
+		p.Count("derivation:leading-zero-parent")
+	}
 }
 
 func common32(x *big.Int) []byte {
